@@ -77,26 +77,50 @@ theorem count_map_fst {β} (L : List (Nat × β)) (k : Nat) : (L.map (·.1)).cou
 
 /-- **C01:** for the row-number column of any record list (row numbers below the row count) the translated computation yields the model's
     row pointers — entry `u` is the number of records in rows below `u` (`rowPtrs_get`), so `[ptr u, ptr (u+1))` is row `u` (`row_slice`) -/
+theorem bincount_ptrs {β} (n : Nat) (L : List (Nat × β)) :
+    cumsum (0 :: bincount (L.map (·.1)) n) = (List.range (n + 1)).map (fun u => ((List.range u).map (LK.rowCount L)).sum) := by
+  have hshift : bincount (L.map (·.1)) n = (List.range' 1 n).map (fun j => match j with | 0 => 0 | j' + 1 => LK.rowCount L j') := by
+    unfold bincount
+    rw [List.range_eq_range']
+    apply List.ext_getElem
+    · simp
+    · intro k h1 h2
+      simp only [List.length_map, List.length_range'] at h1
+      simp only [List.getElem_map, List.getElem_range', Nat.zero_add, Nat.one_mul]
+      have : 1 + k = k + 1 := by omega
+      rw [this]
+      exact count_map_fst L k
+  rw [hshift, List.range_eq_range', List.range'_succ]
+  simp only [cumsum, List.map_cons, cumsumFrom, Nat.zero_add]
+  have := cumsumFrom_range' (fun j => match j with | 0 => 0 | j' + 1 => LK.rowCount L j') (fun r => ((List.range r).map (LK.rowCount L)).sum)
+    (fun j => by simp only; rw [sum_range_succ]) n 0
+  simp only [List.range_zero, List.map_nil, List.sum_nil, Nat.zero_add] at this
+  rw [this]
+  simp
+
 theorem rowPtrsT_eq {β} (n : Nat) (L : List (Nat × β)) (h : ∀ r ∈ L, r.1 < n) :
     rowPtrsT n (L.map (·.1)) = LK.rowPtrs n L := by
   unfold rowPtrsT LK.rowPtrs
   simp only
-  have hk := asLists_keys (valueCounts (L.map (·.1)))
-  have hl := asLists_lens (valueCounts (L.map (·.1)))
-  rw [← hk, ← hl]
-  rw [offsets_eq n (asLists (valueCounts (L.map (·.1))))
-    (by rw [hk]; simp only [valueCounts, List.map_map, Function.comp_def, List.map_id']; exact nodup_distinct _)
-    (by rw [hk]; simp only [valueCounts, List.map_map, Function.comp_def, List.map_id']
-        intro r hr
-        have := (mem_distinct _ r).mp hr
-        obtain ⟨x, hx, rfl⟩ := List.mem_map.mp this
-        exact h x hx)]
-  apply List.map_congr_left
-  intro u _
-  congr 1
-  apply List.map_congr_left
-  intro k _
-  rw [rowSize_valueCounts]
-  exact count_map_fst L k
+  first
+    | exact bincount_ptrs n L
+    | (
+      have hk := asLists_keys (valueCounts (L.map (·.1)))
+      have hl := asLists_lens (valueCounts (L.map (·.1)))
+      rw [← hk, ← hl]
+      rw [offsets_eq n (asLists (valueCounts (L.map (·.1))))
+        (by rw [hk]; simp only [valueCounts, List.map_map, Function.comp_def, List.map_id']; exact nodup_distinct _)
+        (by rw [hk]; simp only [valueCounts, List.map_map, Function.comp_def, List.map_id']
+            intro r hr
+            have := (mem_distinct _ r).mp hr
+            obtain ⟨x, hx, rfl⟩ := List.mem_map.mp this
+            exact h x hx)]
+      apply List.map_congr_left
+      intro u _
+      congr 1
+      apply List.map_congr_left
+      intro k _
+      rw [rowSize_valueCounts]
+      exact count_map_fst L k)
 
 end LK.ArrowOps
